@@ -41,12 +41,22 @@ pub fn discover_local_fingerprints(root: &Path) -> Result<FpMap, Box<dyn std::er
     Ok(out)
 }
 
-/// A std file mtime as whole epoch seconds (the quick-check granularity).
+/// A std file mtime as whole epoch seconds (the quick-check granularity). Times
+/// before 1970 are negative and round towards minus infinity, exactly as the remote
+/// listing's `%T@` integer part does - clamping them to 0 made a pre-epoch source
+/// differ from its own delivered copy on every run.
 fn mtime_secs(meta: &std::fs::Metadata) -> i64 {
-    meta.modified()
-        .ok()
-        .and_then(|t| t.duration_since(UNIX_EPOCH).ok())
-        .map_or(0, |d| i64::try_from(d.as_secs()).unwrap_or(0))
+    let Ok(t) = meta.modified() else {
+        return 0;
+    };
+    match t.duration_since(UNIX_EPOCH) {
+        Ok(d) => i64::try_from(d.as_secs()).unwrap_or(i64::MAX),
+        Err(e) => {
+            let d = e.duration();
+            let whole = i64::try_from(d.as_secs()).unwrap_or(i64::MAX);
+            -whole - i64::from(d.subsec_nanos() > 0)
+        }
+    }
 }
 
 /// Walk a local tree and stat every file into a `MetaMap` of relative paths.
@@ -132,7 +142,11 @@ pub fn parse_remote_meta_output(stdout: &[u8]) -> MetaMap {
 
 /// Set a local file's mtime to `secs` epoch seconds (best-effort).
 pub fn set_local_mtime(path: &Path, secs: i64) -> std::io::Result<()> {
-    let t = UNIX_EPOCH + Duration::from_secs(u64::try_from(secs.max(0)).unwrap_or(0));
+    let t = if secs >= 0 {
+        UNIX_EPOCH + Duration::from_secs(secs.unsigned_abs())
+    } else {
+        UNIX_EPOCH - Duration::from_secs(secs.unsigned_abs())
+    };
     std::fs::File::options()
         .write(true)
         .open(path)?
